@@ -43,9 +43,11 @@ class C06(Spec):
             fcases.append("F %s %d %s" % (rng.choice("LF"), rng.choice([0, 100, 300]), spec))
         cases.extend(fcases)
         # several foreign threads writing concurrently on one connection: whole buffers, each once, per-thread order
-        gcases = ["G 4 50 1000 0", "G 8 20 100000 200", "G 2 3 10 0", "G 6 100 3000 100"]
+        gcases = ["G 4 50 1000 0", "G 8 20 100000 200", "G 2 3 10 0", "G 6 100 3000 100",
+                  # ... each write followed by Transport::flush() in the writing thread, as ResponseStream::flush()/ends() do
+                  "G 4 50 1000 0 1", "G 8 20 100000 200 1", "G 8 200 100 0 1"]
         for _ in range(3 if tier == "quick" else 40):
-            gcases.append("G %d %d %d %d" % (rng.randint(2, 8), rng.randint(1, 60), rng.choice([1, 10, 1000, 5000, 70000, 200000]), rng.choice([0, 100, 300])))
+            gcases.append("G %d %d %d %d %d" % (rng.randint(2, 8), rng.randint(1, 60), rng.choice([1, 10, 1000, 5000, 70000, 200000]), rng.choice([0, 100, 300]), rng.choice([0, 1])))
         cases.extend(gcases)
         n = 150 if tier == "quick" else 3000
         for _ in range(n):
